@@ -18,6 +18,7 @@ namespace GoUtils.Generated.Zip
 def ok : Bool := false
 def sanitise : GoUtils.ZipPath.SanitiseFacts := default
 def limits : GoUtils.Unzip.LimitFacts := default
+def zipReplacesDestination : Bool := false
 end GoUtils.Generated.Zip
 `
 
@@ -144,9 +145,19 @@ func extractZip(root string) (string, map[string]any, error) {
 	if nst < 2 || !strings.Contains(norm(p.src(loop.Body.List[nst-2])), "totalSizeOnDisk.Load()") || !strings.Contains(norm(p.src(loop.Body.List[nst-1])), "limits.GetMaxFileCount()") {
 		checksAfterEachFile = false
 	}
+	// the archive is written into a file that is created or TRUNCATED (fs.CreateFile), and its writer is closed with the error reported
+	zipReplaces := false
+	if zm := p.method("VFS", "ZipWithContextAndLimitsAndExclusionPatterns"); zm != nil {
+		zb := norm(p.src(zm.Body))
+		cf := p.method("VFS", "CreateFile")
+		createTruncates := cf != nil && strings.Contains(norm(p.src(cf.Body)), "fs.vfs.Create(")
+		zipReplaces = createTruncates && strings.Contains(zb, "file, err := fs.CreateFile(destination)") && strings.Contains(zb, "w := zip.NewWriter(file)") &&
+			strings.Contains(zb, "if err == nil { err = w.Close() }")
+	}
 	lean := fmt.Sprintf("import GoUtils.Model.ZipPath\nimport GoUtils.Model.Unzip\nnamespace GoUtils.Generated.Zip\ndef ok : Bool := true\n"+
 		"def sanitise : GoUtils.ZipPath.SanitiseFacts := { joinsDestFirst := true, acceptsDestItself := true, rejectsDotDot := true, prefixWithSeparator := true, sanitiseBeforeMutation := %s, cleansDestination := %s }\n"+
 		"def limits : GoUtils.Unzip.LimitFacts := { archiveDepthStrict := %s, archiveSizeStrict := %s, entryDepthStrict := %s, totalStrict := %s, countStrict := %s, fileSizeStrict := %s, copiesDeclaredSize := %s, sizeCheckBeforeCopy := %s, nestedDepthPlusOne := %s, zipNamesCountedAfterExtraction := %s, checksAfterEachFile := %s }\n"+
+		"/-- Zip writes into a created-or-truncated destination and reports the error of closing the archive -/\ndef zipReplacesDestination : Bool := "+leanBool(zipReplaces)+"\n"+
 		"end GoUtils.Generated.Zip\n",
 		leanBool(before), leanBool(cleans), vals["archiveDepthStrict"], vals["archiveSizeStrict"], vals["entryDepthStrict"], vals["totalStrict"], vals["countStrict"], vals["fileSizeStrict"],
 		leanBool(copiesDeclared), leanBool(sizeCheckBeforeCopy), leanBool(nestedDepth), leanBool(countsSkipZipNames), leanBool(checksAfterEachFile))
